@@ -28,6 +28,7 @@ from harness import c12_lib as L
 SESS = {1: 0x01, 2: 0x03, 3: 0x02}
 SEEDS = {1: "a1b2", 2: "c3d4e5", 9: "0909"}
 PAYLOAD = {1: "11", 2: "2222", 9: "99"}
+RESET_TYPES = [1, 3, 4, 2, 5]
 NRCS = [0x22, 0x31, 0x33, 0x7E]
 OTHER = [("221234", "621234"), ("3101ff00", "7101ff00"), ("22f190", "62f190")]  # (request, positive prefix)
 
@@ -44,7 +45,7 @@ def conc_req(req: list[Any], fl: int) -> str:
     if name == "Key":
         return f"27{arg + 1:02x}a1b2"
     if name == "Reset":
-        return "1101"
+        return f"11{RESET_TYPES[fl % len(RESET_TYPES)]:02x}"
     if name == "RdSess":
         return "22f186"
     return OTHER[(arg + fl) % len(OTHER)][0]
@@ -65,7 +66,8 @@ def conc_rsp(req: list[Any], rsp: list[Any], fl: int) -> str | None:
     if name == "Key":
         return f"67{arg + 1:02x}"
     if name == "Reset":
-        return "5101"
+        t = RESET_TYPES[fl % len(RESET_TYPES)]
+        return f"51{t:02x}" + ("0a" if t == 4 else "")  # enableRapidPowerShutDown carries a powerDownTime
     if name == "RdSess":
         return f"62f186{SESS[v]:02x}"
     return OTHER[(arg + fl) % len(OTHER)][1] + PAYLOAD[v]
@@ -137,7 +139,7 @@ def model_history(r: Any, inv: dict[str, Any], n: int) -> dict[str, Any]:
                     steps.append({"pdu": f"22{r.choice(ids)}"})
                 steps.append({"key": lvl + 1, "good": r.random() < 0.8})
         elif k < 0.55:
-            t = r.choice([1, 1, 3])
+            t = r.choice([1, 1, 3, 2, 4, 5])  # every ISO reset type, incl. enable/disableRapidPowerShutDown
             steps.append({"pdu": f"11{(t | 0x80) if r.random() < 0.15 else t:02x}"})
         elif k < 0.80:
             steps.append({"pdu": f"22{r.choice(ids)}"})
@@ -367,6 +369,21 @@ def _run(rep: Report, tier: str, seed: int, pool: Any) -> Report:
         "url": "c12inproc://target", "ecu_name": "tgt", "props": TARGET_PROPS,
         "steps": [{"pdu": "1003"}, {"pdu": "221234"}, {"pdu": "22f190"}], "oob": [1],
         "peer": {"kind": "model", "seed": 1, "params": 0}}})
+    # every ISO reset type (with and without the suppress bit, also answered negatively) in a non-default
+    # session / with an unlocked level, identical reads before and after with different answers
+    for t in (1, 2, 3, 4, 5):
+        for unlocked in (False, True):
+            for variant in ("pos", "neg", "suppressed"):
+                sec = [("2701", "6701aabb"), ("2702ccdd", "6702")] if unlocked else []
+                rst = {"pos": (f"11{t:02x}", f"51{t:02x}" + ("0a" if t == 4 else "")),
+                       "neg": (f"11{t:02x}", "7f1122"), "suppressed": (f"11{t | 0x80:02x}", None)}[variant]
+                ex = ([("22f190", "62f19000"), ("1003", "5003003201f4")] + sec +
+                      [("22f190", "62f19001"), rst, ("22f190", "62f19002"), ("3101ff00", "7f3133"),
+                       ("1003", "5003003201f4"), ("22f190", "62f19003")])
+                cases.append({"id": f"w-reset-{t}-{'u' if unlocked else 'l'}-{variant}", "second_pass": False,
+                              "target": {"url": "c12inproc://target", "ecu_name": "tgt", "props": TARGET_PROPS,
+                                         "steps": [{"pdu": a} for a, _ in ex],
+                                         "peer": {"kind": "script", "script": [b for _, b in ex]}}})
     # probes OUTSIDE the quantifier of C12 (an ECU that answers undecodable bytes is not a RandomUDSServer
     # model): executed and reported in the evidence, never a violation of this check
     for name, bad in (("p-malformed-positive", "6212"), ("p-malformed-negative", "7f22")):
